@@ -158,6 +158,31 @@ def GS2(tag="zm"):
     return z3.Function(f"GS2_{tag}", z3.IntSort(), z3.IntSort(), z3.IntSort())
 
 
+def spec_sum(I, F, n, term):
+    """i -> F(i, n) = sum_{j<n} term(i, j): the uninterpreted recursive spec function in proofs; the explicit finite sum when
+    the spec is evaluated on a concrete input (replay of a counter-model on the real code)"""
+    from pyvc.values import concrete_int
+
+    cn = concrete_int(n)
+    if getattr(I, "replaying", False) and cn is not None:
+        return lambda i: (z3.Sum([term(i, z3.IntVal(j)) for j in range(cn)]) if cn > 1 else
+                          (term(i, z3.IntVal(0)) if cn == 1 else z3.IntVal(0)))
+    n_ = to_z3(n)
+    return lambda i: F(i, n_)
+
+
+def zmeas_choices(concs):
+    """candidate (found, pivot, outcome) choices of a Z measurement of qubit concs[1] on the concrete tableau concs[0]"""
+    t, q = concs[0], concs[1]
+    n, tab = t["n"], t["table"]
+    if not (0 <= q < n):
+        return []
+    rows = [r for r in range(n, 2 * n) if tab[r][q] == 1]
+    if rows:
+        return [dict(found=True, p=z3.IntVal(r), outcome=z3.IntVal(o)) for r in rows for o in (0, 1)]
+    return [dict(found=False, p=z3.IntVal(0), outcome=z3.IntVal(o)) for o in (0, 1)]
+
+
 def _mode_outcome(mode, outcome):
     if isinstance(mode, str) and mode == "probabilistic":
         return z3.And(outcome >= 0, outcome <= 1)
@@ -198,13 +223,13 @@ def _zmeas_spec(I, T, q, mode):
     if path.decide(found if not isinstance(found, bool) else z3.BoolVal(found)):
         I.claim("pivot-is-anticommuting-stabilizer-row", z3.And(p >= n_, p < 2 * n_, rt(p, q_) == 1))
         I.claim("outcome-follows-mode", _mode_outcome(mode, outcome))
-        G = GS2()
+        Gs = spec_sum(I, GS2(), n, lambda i, j: g_term(rt(p, j), rt(p, n_ + j), rt(i, j), rt(i, n_ + j)))
 
         def hit(i):
             return z3.And(rt(i, q_) != 0, i != p)
 
         def rs(i):
-            return _rs_phase(rp(i), ri(i), rp(p), ri(p), G(i, n_))
+            return _rs_phase(rp(i), ri(i), rp(p), ri(p), Gs(i))
 
         def new_tab(i, j):
             return z3.If(i == p, z3.If(j == n_ + q_, z3.IntVal(1), z3.IntVal(0)),
@@ -405,7 +430,7 @@ def _reset_z_spec(I, T, q, intended, mode):
     return _GC[f"{TRANS}:x_gate"].spec(I, T, q)
 
 
-C[f"{CLIFF}:reset_z"] = Contract(f"{CLIFF}:reset_z", requires=_reset_req, spec=_reset_z_spec, extract=_reset_extract,
+C[f"{CLIFF}:reset_z"] = Contract(f"{CLIFF}:reset_z", requires=_reset_req, spec=_reset_z_spec, extract=_reset_extract, choices=zmeas_choices,
                                  clause="reset leaves the measured qubit in the requested Z eigenstate (|0> for intended_state=0) and "
                                         "the rest in the post-measurement state")
 
@@ -421,7 +446,7 @@ def _reset_y_spec(I, T, q, intended, mode):
     return _GC[f"{TRANS}:phase_gate"].spec(I, T, q)
 
 
-C[f"{CLIFF}:reset_x"] = Contract(f"{CLIFF}:reset_x", requires=_reset_req, spec=_reset_x_spec, extract=_reset_extract,
+C[f"{CLIFF}:reset_x"] = Contract(f"{CLIFF}:reset_x", requires=_reset_req, spec=_reset_x_spec, extract=_reset_extract, choices=zmeas_choices,
                                  clause="reset_x = reset_z followed by H")
-C[f"{CLIFF}:reset_y"] = Contract(f"{CLIFF}:reset_y", requires=_reset_req, spec=_reset_y_spec, extract=_reset_extract,
+C[f"{CLIFF}:reset_y"] = Contract(f"{CLIFF}:reset_y", requires=_reset_req, spec=_reset_y_spec, extract=_reset_extract, choices=zmeas_choices,
                                  clause="reset_y = reset_z followed by H then P")
